@@ -118,6 +118,26 @@ package snaps
 //@   ensures [lock] held[_m] == 0
 //@   ensures [hit] fsx[snapPath] && found(fsc[snapPath], testID) ==> err == nil && snap == body(fsc[snapPath], testID) && line == hdrPos(fsc[snapPath], testID) + 1
 //@   ensures [miss] !(fsx[snapPath] && found(fsc[snapPath], testID)) ==> err == errSnapNotFound
+//@   dead ret3
+//@   let F = fsc[snapPath]
+//@   let B = wbuf[snapshot]
+//@   loop 1 invariant scsrc[s] == F && scunb[s] && s != nil && fsx[snapPath] && held[_m] == 1
+//@   loop 1 invariant 0 <= scpos[s] && scpos[s] <= ntok(F)
+//@   loop 1 invariant forall r Ref: old(alloc)[r] ==> scpos[r] == old(scpos)[r] && wbuf[r] == old(wbuf)[r]
+//@   loop 1 invariant (lineNumber == scpos[s] + 1 && (forall k in 0..scpos[s]: tok(F, k) != testID)) || (scpos[s] == ntok(F) && !found(F, testID))
+//@   loop 1.1 invariant scsrc[s] == F && scunb[s] && s != nil && fsx[snapPath] && held[_m] == 1
+//@   loop 1.1 invariant 1 <= lineNumber && lineNumber <= scpos[s] && scpos[s] <= ntok(F)
+//@   loop 1.1 invariant forall r Ref: old(alloc)[r] ==> scpos[r] == old(scpos)[r] && wbuf[r] == old(wbuf)[r]
+//@   loop 1.1 invariant tok(F, lineNumber - 1) == testID && (forall k in 0..lineNumber - 1: tok(F, k) != testID)
+//@   loop 1.1 invariant forall k in lineNumber..scpos[s]: tok(F, k) != "---"
+//@   loop 1.1 invariant nl(B) == scpos[s] - lineNumber + 1 && seg(B, nl(B) - 1) == ""
+//@   loop 1.1 invariant forall i in 0..nl(B) - 1: seg(B, i) == tok(F, lineNumber + i)
+//@
+//@ func snapshotScanner(r) returns (s)
+//@   mode ctl
+//@   assigns alloc
+//@   ensures fresh(s) && alloc == store(old(alloc), s, true)
+//@   ensures scsrc[s] == rdsrc[r] && scpos[s] == 0 && scunb[s]
 //@
 //@ func takeSnapshot(objects) returns (r)
 //@   mode ctl
@@ -130,6 +150,9 @@ package snaps
 //@   pure
 //@   assigns nothing
 //@   ensures r == unesc(s)
+//@   loop 1 invariant 0 <= $idx && $idx <= len(ss) && len(ss) == nl(old(s))
+//@   loop 1 invariant forall i in 0..$idx: ss[i] == (seg(old(s), i) == "/-/-/-/" ? "---" : seg(old(s), i))
+//@   loop 1 invariant forall i in $idx..len(ss): ss[i] == seg(old(s), i)
 //@
 //@ func escapeEndChars(s) returns (r)
 //@   mode lines
@@ -137,6 +160,9 @@ package snaps
 //@   assigns nothing
 //@   ensures r == esc(s)
 //@   ensures noEND(r)
+//@   loop 1 invariant 0 <= $idx && $idx <= len(ss) && len(ss) == nl(old(s))
+//@   loop 1 invariant forall i in 0..$idx: ss[i] == (seg(old(s), i) == "---" ? "/-/-/-/" : seg(old(s), i))
+//@   loop 1 invariant forall i in $idx..len(ss): ss[i] == seg(old(s), i)
 //@
 //@ func prettyDiff(expected, received, name, line) returns (r)
 //@   mode ctl
